@@ -144,7 +144,8 @@ class C10(BaseCheck):
                     'nest': k.choice(['none', 'inlist', 'indict']), 'ops': []}
         p_v3 = k.choice([0.15, 0.3, 0.5])
         gver = k.choice(VERSIONS)
-        ctor = {'meta': [], 'cols': {'a': [], 'b': []}, 'meta_as': k.choice(['dict', 'sd']), 'cols_as': k.choice(['pairs', 'dict'])}
+        ctor = {'meta': [], 'cols': {'a': [], 'b': []}, 'meta_as': k.choice(['dict', 'sd', 'mo']), 'cols_as': k.choice(['pairs', 'dict', 'mo']),
+                'ver_as': k.choice(['str', 'str', 'obj'])}
         for j in range(k.choice([0, 0, 1, 2])):
             ctor['meta'].append(['m%d' % j, gen_value(r, p_v3 / 2)])
         for c in COLS:
@@ -178,7 +179,7 @@ class C10(BaseCheck):
                 o['row'] = {c: gen_value(r, p_v3 / 2) for c in COLS if r.random() < 0.9}
                 o['i'] = r.randrange(3)
             elif op in ('extend', 'iadd'):
-                o['rows'] = [{c: gen_value(r, p_v3 / 3) for c in COLS} for _ in range(r.choice([1, 2, 3]))]
+                o['rows'] = [{c: gen_value(r, p_v3 / 3) for c in COLS} for _ in range(r.choice([1, 2, 3, 3, 12, 40]))]
             elif op == 'row_poke':
                 o['i'] = r.randrange(3)
                 o['c'] = r.choice(COLS)
@@ -249,7 +250,8 @@ class C10(BaseCheck):
         cols = []
         for c in COLS:
             pairs = [(k, mkv(hs, s)) for k, s in ctor['cols'].get(c, [])]
-            cols.append((c, dict(pairs) if ctor.get('cols_as') == 'dict' else pairs))
+            cols.append((c, dict(pairs) if ctor.get('cols_as') == 'dict' else
+                         hs.MetadataObject(pairs) if ctor.get('cols_as') == 'mo' else pairs))
         ctor_v3 = any(is_v3(s) for _, s in ctor['meta']) or any(is_v3(s) for c in COLS for _, s in ctor['cols'].get(c, []))
         skeleton = ['history', str(gver)]
         met_decision = 0
@@ -262,8 +264,10 @@ class C10(BaseCheck):
 
         g = None
         try:
-            md = dict(meta_pairs) if ctor.get('meta_as') == 'dict' else SortableDict(meta_pairs)
-            g = hs.Grid(version=gver, metadata=md, columns=cols)
+            md = dict(meta_pairs) if ctor.get('meta_as') == 'dict' else \
+                hs.MetadataObject(meta_pairs) if ctor.get('meta_as') == 'mo' else SortableDict(meta_pairs)
+            vers = hs.Version(gver) if (gver is not None and ctor.get('ver_as') == 'obj') else gver
+            g = hs.Grid(version=vers, metadata=md, columns=cols)
             if pre3 and ctor_v3:
                 viol = fail('not-refused', step='ctor', version=gver, why='constructor accepted a 3.0-only value for a pre-3.0 grid',
                             where=grid_has_v3(hs, g))
@@ -465,7 +469,7 @@ class C10(BaseCheck):
                         stats['probe.upgrades'] = stats.get('probe.upgrades', 0) + 1
             # ---- both writers, then both readers
             reparse = bool(case.get('reparse_every')) and (step % case['reparse_every'] == 0 or step == len(case['ops']) - 1)
-            bad = self._dump_and_reparse(g, where, stats, reparse)
+            bad = self._dump_and_reparse(g, where, stats, reparse and len(g) <= 6)     # a ZINC re-parse costs ~10 ms per row
             dumps += 2
             if bad:
                 viol = fail(bad[0], step=step, op=o, version=str(g.version), declared=gver, poked=poked, **bad[1])
@@ -647,7 +651,7 @@ class C10(BaseCheck):
             got['grid'] = 'error:' + type(e).__name__
         for mode, name in ((hs.MODE_ZINC, 'zinc-writer'), (hs.MODE_JSON, 'json-writer')):
             try:
-                hs.dump_scalar(mkv(hs, spec), mode=mode, version=hs.Version(ver))
+                hs.dump_scalar(mkv(hs, spec), mode=mode, version=hs.Version(ver) if len(ver) % 2 else ver)
                 got[name] = True
             except ValueError:
                 got[name] = False
